@@ -23,6 +23,7 @@ from gen import trees as T
 import translate
 
 LEVEL = "proof"
+REPLAY_BY_SEED = True  # a replay file names (seed, tier); ./check --replay re-runs exactly that run
 
 RULE = (
     "cases = random operation sequences (<= 12 ops quick / <= 30 thorough: replace_path(retain_id in {F,T}) with generated open/closed "
